@@ -1,6 +1,7 @@
 package main
 
 import (
+	"runtime/debug"
 	"fmt"
 	"math"
 	"sort"
@@ -599,6 +600,30 @@ func (g *c06gen) deepNest() {
 	g.tags = append(g.tags, fmt.Sprintf("deep-nest:%d", depth))
 }
 
+func (g *c06gen) deepRecursion() {
+	c := g.newColl()
+	if c.n == 0 {
+		c = g.newColl()
+	}
+	g.addDef("boom", "def boom(x):\n    return [1][x + 5]\n")
+	stop := g.r.Pick([]string{"", "", "", "        if n == %d:\n            boom(0)\n", "        if n == %d:\n            fault(\"deep\")\n", "        if n == %d:\n            return n\n"})
+	if stop != "" {
+		stop = fmt.Sprintf(stop, g.r.Pick3(g.r.Range(1, 50), g.r.Range(1000, 20000), g.r.Range(90000, 99990)))
+	}
+	fn := g.fresh("rec")
+	var b strings.Builder
+	fmt.Fprintf(&b, "def %s(n, c):\n    for x in c:\n", fn)
+	if g.r.Chance(1, 3) {
+		fmt.Fprintf(&b, "        if n %% 25000 == 7:\n            must_fail(%s, c)\n", g.mut(c))
+	}
+	b.WriteString(stop)
+	fmt.Fprintf(&b, "        return %s(n + 1, c) + 1\n    return n\n", fn)
+	g.addDef(fn, b.String())
+	g.emit(1, "attempt(%s, 0, %s)", fn, c.name)
+	g.emit(1, "must_ok(%s, %s)", g.mut(c), c.name)
+	g.tags = append(g.tags, "deep-recursion")
+}
+
 func (g *c06gen) construct() {
 	if g.r.Chance(1, 5) {
 		g.deepNest()
@@ -746,7 +771,19 @@ func (c06) Generate(seed uint64, i int, tier string) *Scenario {
 	r := NewRng(mix64(seed, uint64(i)) ^ 0xc06)
 	sc := &Scenario{Prop: "C06", Family: "enum", Seed: seed, Index: i, D: Dialect{Set: r.Chance(4, 5), While: true, TopLevelControl: true, GlobalReassign: r.Bool(), Recursion: r.Bool()}, N: map[string]int64{}}
 	g := &c06gen{r: r, d: sc.D, defs: map[string]string{}}
+	if r.Chance(1, 120) {
+		// deep recursion: an iteration held open in every one of up to 100 000
+		// frames (the interpreter's own depth limit ends it with an error), left
+		// by an error, a fault, a return or the depth limit itself
+		sc.D.Recursion = true
+		g.d = sc.D
+		g.deepRecursion()
+		sc.N["deep"] = 1
+	}
 	n := r.Range(1, 4)
+	if sc.N["deep"] == 1 {
+		n = 0
+	}
 	for k := 0; k < n; k++ {
 		g.construct()
 	}
@@ -776,6 +813,8 @@ func c06exec(sc *Scenario, prog *starlark.Program, faults []Fault, limit uint64)
 	w.addC06Builtins(pre)
 	if limit > 0 {
 		c.Th.SetMaxExecutionSteps(limit)
+	} else if sc.Knob("deep", 0) == 1 {
+		c.Th.SetMaxExecutionSteps(5000000)
 	} else {
 		c.Th.SetMaxExecutionSteps(200000)
 	}
@@ -854,6 +893,13 @@ func (p c06) Run(sc *Scenario) *Result {
 	}
 	src := sc.Source()
 	res.Sig = hashStr(src)
+	deep := sc.Knob("deep", 0) == 1
+	if deep {
+		// 100 000 Starlark frames legitimately need more Go stack than the cap
+		// the other scenarios run under
+		debug.SetMaxStack(1 << 30)
+		defer debug.SetMaxStack(128 << 20)
+	}
 	ref := c06exec(sc, prog, nil, 0)
 	res.Evals++
 	if ref.panic != nil {
@@ -886,7 +932,13 @@ func (p c06) Run(sc *Scenario) *Result {
 	single := sc.Knob("single", 0) == 1
 	// step limit at every N
 	limits := sc.Limits
-	if len(limits) == 0 && !single {
+	if len(limits) == 0 && !single && deep {
+		// a handful of cut points: shallow, deep, just before the end
+		r := NewRng(hashStr(src))
+		for k := 0; k < 3 && S > 10; k++ {
+			limits = append(limits, uint64(r.Pick3(r.Range(1, 200), r.Range(200, int(S)), int(S)-r.Range(0, 8))))
+		}
+	} else if len(limits) == 0 && !single {
 		if S <= 900 {
 			for n := uint64(1); n <= S+1; n++ {
 				limits = append(limits, n)
@@ -914,7 +966,7 @@ func (p c06) Run(sc *Scenario) *Result {
 	if len(sc.Faults) > 0 {
 		plan = sc.Faults
 	} else if !single {
-		for k := uint64(1); k <= B && k <= 300; k++ {
+		for k := uint64(1); k <= B && k <= 300 && !(deep && k > 2); k++ {
 			for _, kind := range kinds {
 				plan = append(plan, Fault{Kind: kind, Task: 0, Trigger: "call", K: k, Payload: "c06"})
 			}
